@@ -40,6 +40,7 @@ TSlotData = TypeVar("TSlotData", bound=Mapping, contravariant=True)
 
 DEFAULT_SLOT_KEY = "default"
 FILL_GEN_CONTEXT_KEY = "_DJANGO_COMPONENTS_GEN_FILL"
+_FILL_IN_OUTER_CONTEXT_KEY = "_DJC_FILL_IN_OUTER_CONTEXT"
 SLOT_DATA_KWARG = "data"
 SLOT_NAME_KWARG = "name"
 SLOT_DEFAULT_KWARG = "default"
@@ -563,6 +564,9 @@ class SlotNode(BaseNode):
         # For the user-provided slot fill, we want to use the context of where the slot
         # came from (or current context if configured so)
         used_ctx = self._resolve_slot_context(context, slot_fill, component_ctx)
+        # NOTE: When the fill is rendered in the context from OUTSIDE of the component ("isolated" mode),
+        #       that context holds no layers of this component. See `_nodelist_to_slot_render_func()`.
+        extra_context[_FILL_IN_OUTER_CONTEXT_KEY] = used_ctx is not context
         with used_ctx.update(extra_context):
             # Required for compatibility with Django's {% extends %} tag
             # This makes sure that the render context used outside of a component
@@ -1066,15 +1070,22 @@ def _nodelist_to_slot_render_func(
         # HOWEVER, the layer with `_COMPONENT_CONTEXT_KEY` also contains user-defined data from `get_context_data()`.
         # Data from `get_context_data()` should take precedence over `extra_context`. So we have to insert
         # the forloop variables BEFORE that.
-        index_of_last_component_layer = get_last_index(ctx.dicts, lambda d: _COMPONENT_CONTEXT_KEY in d)
-        if index_of_last_component_layer is None:
-            index_of_last_component_layer = 0
+        if ctx.get(_FILL_IN_OUTER_CONTEXT_KEY):
+            # The fill is rendered in the context from outside of the component (see `SlotNode.render()`),
+            # so the last component layer belongs to the component AROUND the `{% component %}` tag. The variables
+            # defined between the tag and the `{% fill %}` are nearer than anything in that context, so they go
+            # right under the top layer (which holds the slot data and our internal keys).
+            index_of_last_component_layer = len(ctx.dicts) - 1
+        else:
+            index_of_last_component_layer = get_last_index(ctx.dicts, lambda d: _COMPONENT_CONTEXT_KEY in d)
+            if index_of_last_component_layer is None:
+                index_of_last_component_layer = 0
 
-        # TODO: Currently there's one more layer before the `_COMPONENT_CONTEXT_KEY` layer, which is
-        #       pushed in `_prepare_template()` in `component.py`.
-        #       That layer should be removed when `Component.get_template()` is removed, after which
-        #       the following line can be removed.
-        index_of_last_component_layer -= 1
+            # TODO: Currently there's one more layer before the `_COMPONENT_CONTEXT_KEY` layer, which is
+            #       pushed in `_prepare_template()` in `component.py`.
+            #       That layer should be removed when `Component.get_template()` is removed, after which
+            #       the following line can be removed.
+            index_of_last_component_layer -= 1
 
         # Insert the `extra_context` layer BEFORE the layer that defines the variables from get_context_data.
         # Thus, get_context_data will overshadow these on conflict.
